@@ -68,15 +68,71 @@ variable [DecidableEq α]
 
 /-! ### Row 1 and column 1 never point at the border (given equal first tokens) -/
 
+theorem le_mismatchCost (c : Cell) (basic : Nat) : basic ≤ mismatchCost c basic := by
+  unfold mismatchCost; omega
+
+theorem mismatchCost_colTop (i basic : Nat) :
+    mismatchCost (colTop i) basic = i * deletionCost + initialMismatchPenalty + basic := by
+  simp [mismatchCost, colTop, firstRowOp_eq, firstRowStep_eq, firstRowExtra_eq, penaltyAfter_eq]
+
+theorem mismatchCost_colLeft (j basic : Nat) :
+    mismatchCost (colLeft j) basic = j * insertionCost + initialMismatchPenalty + basic := by
+  simp [mismatchCost, colLeft, firstColOp_eq, firstColStep_eq, firstColExtra_eq, penaltyAfter_eq]
+
 theorem cellP_single (t : α) : cellP [t] [t] = ⟨(0, 0), .noOp, 0⟩ := by
   rw [cellP_cons_cons]
   simp only [cellP, List.length_nil, decide_true]
-  unfold chooseSpec
   have h1 := deletionCost_pos
   have h2 := insertionCost_pos
-  simp [insCand, delCand, noopCand, mismatchCost, colTop, colLeft, origin, firstRowOp_eq,
-    firstColOp_eq, penaltyAfter_eq]
-  rw [if_neg (by omega), if_neg (by omega)]
+  rcases chooseSpec_cases ⟨colTop (0 + 1), (0 + 1, 0)⟩ ⟨colLeft (0 + 1), (0, 0 + 1)⟩ ⟨origin, (0, 0)⟩ true
+    with h | h | h
+  · have h3 := h.2.2 rfl
+    have h4 := le_mismatchCost (colTop (0 + 1)) insertionCost
+    simp only [insCand, noopCand, origin] at h3
+    omega
+  · have h3 := h.2.2 rfl
+    have h4 := le_mismatchCost (colLeft (0 + 1)) deletionCost
+    simp only [delCand, noopCand, origin] at h3
+    omega
+  · rw [h.1]; simp [noopCand, origin]
+
+theorem row1_step (k : Nat) (left : Cell) (eq : Bool)
+    (hl : mismatchCost left deletionCost = (k + 1) * deletionCost + initialMismatchPenalty) :
+    chooseSpec ⟨colTop (k + 1 + 1), (k + 1 + 1, 0)⟩ ⟨left, (k + 1, 0 + 1)⟩ ⟨colTop (k + 1), (k + 1, 0)⟩ eq =
+      ⟨(k + 1, 1), .deletion, (k + 1) * deletionCost + initialMismatchPenalty⟩ := by
+  have h1 := deletionCost_pos
+  have h2 := insertionCost_pos
+  have hi := mismatchCost_colTop (k + 1 + 1) insertionCost
+  have e : (k + 1 + 1) * deletionCost = (k + 1) * deletionCost + deletionCost := by
+    simp [Nat.succ_mul]
+  rcases chooseSpec_cases ⟨colTop (k + 1 + 1), (k + 1 + 1, 0)⟩ ⟨left, (k + 1, 0 + 1)⟩
+      ⟨colTop (k + 1), (k + 1, 0)⟩ eq with h | h | h
+  · have h3 := h.2.1
+    simp only [insCand, delCand] at h3
+    omega
+  · rw [h.1]; simp [delCand, hl]
+  · have h3 := h.2.2.2
+    simp only [noopCand, delCand, colTop, firstRowStep_eq, firstRowExtra_eq] at h3
+    omega
+
+theorem col1_step (k : Nat) (up : Cell) (eq : Bool)
+    (hu : mismatchCost up insertionCost = (k + 1) * insertionCost + initialMismatchPenalty) :
+    chooseSpec ⟨up, (0 + 1, k + 1)⟩ ⟨colLeft (k + 1 + 1), (0, k + 1 + 1)⟩ ⟨colLeft (k + 1), (0, k + 1)⟩ eq =
+      ⟨(1, k + 1), .insertion, (k + 1) * insertionCost + initialMismatchPenalty⟩ := by
+  have h1 := deletionCost_pos
+  have h2 := insertionCost_pos
+  have hi := mismatchCost_colLeft (k + 1 + 1) deletionCost
+  have e : (k + 1 + 1) * insertionCost = (k + 1) * insertionCost + insertionCost := by
+    simp [Nat.succ_mul]
+  rcases chooseSpec_cases ⟨up, (0 + 1, k + 1)⟩ ⟨colLeft (k + 1 + 1), (0, k + 1 + 1)⟩
+      ⟨colLeft (k + 1), (0, k + 1)⟩ eq with h | h | h
+  · rw [h.1]; simp [insCand, hu]
+  · have h3 := h.2.1
+    simp only [insCand, delCand] at h3
+    omega
+  · have h3 := h.2.2.1
+    simp only [noopCand, insCand, colLeft, firstColStep_eq, firstColExtra_eq] at h3
+    omega
 
 /-- Row 1: cell `(i, 1)` for `i ≥ 2` is a deletion from `(i-1, 1)`. -/
 theorem cellP_row1 (t : α) (xs : List α) (a : α) :
@@ -87,36 +143,15 @@ theorem cellP_row1 (t : α) (xs : List α) (a : α) :
     rw [cellP_cons_cons]
     simp only [List.nil_append, cellP_single, List.length_nil, List.length_cons]
     simp only [cellP, List.length_nil, List.length_cons]
-    unfold chooseSpec
-    have h1 := deletionCost_pos
-    have h2 := insertionCost_pos
-    simp only [insCand, delCand, noopCand, mismatchCost, colTop, firstRowOp_eq, firstRowStep_eq,
-      firstRowExtra_eq, penaltyAfter_eq]
-    simp only [Nat.zero_add, Nat.one_mul, reduceCtorEq, if_false, if_true, Nat.add_zero, Nat.zero_add]
-    have e : (0 + 1 + 1) * deletionCost = deletionCost + deletionCost := by
-      simp [Nat.succ_mul]
-    rw [e]
-    split <;> split <;> (try split) <;> first | rfl | omega | (simp; omega) | skip
-    all_goals (rename_i h3 h4; omega)
+    exact row1_step 0 _ _ (by simp [mismatchCost, penaltyAfter_eq])
   | cons c xs ih =>
     rw [cellP_cons_cons]
     have := ih c
     simp only [List.cons_append] at this ⊢
     rw [this]
     simp only [cellP, List.length_nil, List.length_cons, List.length_append]
-    unfold chooseSpec
-    have h1 := deletionCost_pos
-    have h2 := insertionCost_pos
-    simp only [insCand, delCand, noopCand, mismatchCost, colTop, firstRowOp_eq, firstRowStep_eq,
-      firstRowExtra_eq, penaltyAfter_eq]
-    simp only [reduceCtorEq, if_false, Nat.add_zero]
-    have e1 : (xs.length + 1 + 1 + 1) * deletionCost = (xs.length + 1) * deletionCost + deletionCost + deletionCost := by
-      simp [Nat.succ_mul]
-    have e2 : (xs.length + 1 + 1) * deletionCost = (xs.length + 1) * deletionCost + deletionCost := by
-      simp [Nat.succ_mul]
-    rw [e1, e2]
-    split <;> split <;> (try split) <;> first | rfl | omega | (simp; omega) | skip
-    all_goals (rename_i h3 h4; omega)
+    exact row1_step (xs.length + 1) _ _ (by
+      simp [mismatchCost, penaltyAfter_eq, Nat.succ_mul]; omega)
 
 /-- Column 1: cell `(1, j)` for `j ≥ 2` is an insertion from `(1, j-1)`. -/
 theorem cellP_col1 (t : α) (ys : List α) (b : α) :
@@ -127,36 +162,15 @@ theorem cellP_col1 (t : α) (ys : List α) (b : α) :
     rw [cellP_cons_cons]
     simp only [List.nil_append, cellP_single, List.length_nil, List.length_cons]
     simp only [cellP, List.length_nil, List.length_cons]
-    unfold chooseSpec
-    have h1 := deletionCost_pos
-    have h2 := insertionCost_pos
-    simp only [insCand, delCand, noopCand, mismatchCost, colLeft, firstColOp_eq, firstColStep_eq,
-      firstColExtra_eq, penaltyAfter_eq]
-    simp only [Nat.zero_add, Nat.one_mul, reduceCtorEq, if_false, if_true, Nat.add_zero, Nat.zero_add]
-    have e : (0 + 1 + 1) * insertionCost = insertionCost + insertionCost := by
-      simp [Nat.succ_mul]
-    rw [e]
-    split <;> split <;> (try split) <;> first | rfl | omega | (simp; omega) | skip
-    all_goals (rename_i h3 h4; omega)
+    exact col1_step 0 _ _ (by simp [mismatchCost, penaltyAfter_eq])
   | cons c ys ih =>
     rw [cellP_cons_cons]
     have := ih c
     simp only [List.cons_append] at this ⊢
     rw [this]
     simp only [cellP, List.length_nil, List.length_cons, List.length_append]
-    unfold chooseSpec
-    have h1 := deletionCost_pos
-    have h2 := insertionCost_pos
-    simp only [insCand, delCand, noopCand, mismatchCost, colLeft, firstColOp_eq, firstColStep_eq,
-      firstColExtra_eq, penaltyAfter_eq]
-    simp only [reduceCtorEq, if_false, Nat.add_zero]
-    have e1 : (ys.length + 1 + 1 + 1) * insertionCost = (ys.length + 1) * insertionCost + insertionCost + insertionCost := by
-      simp [Nat.succ_mul]
-    have e2 : (ys.length + 1 + 1) * insertionCost = (ys.length + 1) * insertionCost + insertionCost := by
-      simp [Nat.succ_mul]
-    rw [e1, e2]
-    split <;> split <;> (try split) <;> first | rfl | omega | (simp; omega) | skip
-    all_goals (rename_i h3 h4; omega)
+    exact col1_step (ys.length + 1) _ _ (by
+      simp [mismatchCost, penaltyAfter_eq, Nat.succ_mul]; omega)
 
 theorem cellP_op_noOp_imp_eq (a b : α) (xs ys : List α) (h : (cellP (a :: xs) (b :: ys)).op = .noOp) :
     a = b := by
@@ -226,9 +240,6 @@ theorem opsSpec_valid (t : α) (x y : List α) :
   simpa using this
 
 /-! ### Identical sequences: all no-ops -/
-
-theorem le_mismatchCost (c : Cell) (basic : Nat) : basic ≤ mismatchCost c basic := by
-  unfold mismatchCost; omega
 
 theorem cellP_diag (a : α) (xs : List α) :
     cellP (a :: xs) (a :: xs) = ⟨(xs.length, xs.length), .noOp, 0⟩ := by
